@@ -169,3 +169,23 @@ void enumerate(const Emit& emit, const std::string&) {
     for (int d = 2; d <= 6; d++) for (int i = 0; i <= d * d + 2; i++) emit({1, (uint8_t)ck, 1, (uint8_t)(d - 2), (uint8_t)i});  // supported dimension, bad index
   }
 }
+
+// fixed findings 47ce1c9 (SUTrace), da55c78 (Evolve), 0e92215 (SU_vector(1,buf)), 090e08a (make_aligned)
+void regressions() {
+  for (int d1 = 2; d1 <= 6; d1++) for (int d2 = 2; d2 <= 6; d2++) {
+    if (d1 == d2) continue;
+    SU_vector a(d1), b(d2);
+    bool t1 = false, t2 = false;
+    try { volatile double r = squids::SUTrace<>(a, b); (void)r; } catch (const std::exception&) { t1 = true; }
+    try { SU_vector r(a.Evolve(b, 0.5)); } catch (const std::exception&) { t2 = true; }
+    CHECK(t1, "C14|SUTrace|no-exception", "regression: d1=%d d2=%d", d1, d2);
+    CHECK(t2, "C14|a.Evolve(b,t)|no-exception", "regression: d1=%d d2=%d", d1, d2);
+  }
+  double buf[64];
+  for (unsigned d : {1u, 7u, 8u}) {
+    bool t = false; try { SU_vector v = SU_vector::make_aligned(d); } catch (const std::exception&) { t = true; }
+    CHECK(t, fmt("C14|make_aligned(d)|no-exception|d=%u", d), "regression");
+    t = false; try { SU_vector v(d, buf); } catch (const std::exception&) { t = true; }
+    CHECK(t, fmt("C14|SU_vector(d,buf)|no-exception|d=%u", d), "regression");
+  }
+}
